@@ -410,6 +410,12 @@ impl LspClient {
         )
     }
 
+    /// bytes as they are (not necessarily a whole message)
+    pub fn raw(&mut self, bytes: &[u8]) -> Result<(), ClientErr> {
+        hist("lsp", "raw_bytes", json!({ "len": bytes.len() }));
+        self.w.write_all(bytes).and_then(|_| self.w.flush()).map_err(|e| ClientErr::Io(e.to_string()))
+    }
+
     /// close the client's end of the server's stdin
     pub fn close_pipe(&mut self) {
         hist("lsp", "client_closes_pipe", Value::Null);
